@@ -155,8 +155,15 @@ func c03Drivers(t vstat.TB) []*Driver {
 	return []*Driver{InmemDriver(), rd}
 }
 
+var lastCut int64
+
 func recordC03(c SCase, info Info) {
-	vstat.For("C03").Case(info.HitExisting, vstat.Hash(c), func() any { return c }, append(info.ClassList(), fmt.Sprintf("redis_logical_database:%d", RedisDB()))...)
+	cl := append(info.ClassList(), fmt.Sprintf("redis_logical_database:%d", RedisDB()))
+	if n := ScanPagesCut(); n > lastCut {
+		lastCut = n
+		cl = append(cl, "redis_scan_answered_in_several_pages_with_empty_ones")
+	}
+	vstat.For("C03").Case(info.HitExisting, vstat.Hash(c), func() any { return c }, cl...)
 }
 
 func TestC03Rapid(t *testing.T) {
